@@ -1715,6 +1715,65 @@ def opc15_exit_sites(ctx: Ctx) -> None:
         raise AnalysisError(f"OPC-15: only {n_ok} exit sites resolved correctly; the evaluation is probably not reaching the matcher")
 
 
+def opc16_exit_sites_310(ctx: Ctx) -> None:
+    """OPC-16 the same question as OPC-15 for CPython 3.9 / 3.10, where the answer comes from the POP_BLOCK walk -- code the 3.12
+    suite never runs.  FACTS (exit_sites_observed): each of the 30 shapes is *run* by that interpreter with recording context
+    managers; for every normal-path exit the facts hold the position of the leaving frame as seen from inside __exit__ /
+    __aexit__ (and, for async exits, the position at which the coroutine is suspended) and the handler of the block that manager
+    entered (the target of its SETUP_WITH / SETUP_ASYNC_WITH) -- the interpreter's own word on which block an exit belongs to.
+    currently_exiting_context is evaluated (engine MINI, whole function, including the block-stack walk) at each recorded
+    position and must return that handler and is_async"""
+    from types import SimpleNamespace as NS
+    from ..minieval import Mini, Raised, Unsupported, _Return
+    mod = ctx.P.mod("_lowlevel")
+    fn = mod.fn("currently_exiting_context")
+    n_ok = 0
+    n_all = 0
+    for v in sorted(ctx.V.all, key=lambda s_: tuple(map(int, s_.split(".")))):
+        IF = ctx.F["interp"][v]
+        shapes = IF.get("exit_sites_observed")
+        if not shapes:
+            continue
+        omap = IF["opmap"]
+        for name, sh in sorted(shapes.items()):
+            for site in sh["sites"]:
+                n_all += 1
+                warned: List[str] = []
+                code_obj = NS(co_code=list(sh["co_code"]), co_consts=[None if x else 0 for x in sh["consts_none"]], co_name=name)
+                env = {"frame": NS(f_lasti=site["pos"], f_code=code_obj), "dis": NS(opmap=dict(omap), hasjabs=[omap[x] if isinstance(x, str) else x for x in IF["hasjabs"]], hasjrel=[omap[x] if isinstance(x, str) else x for x in IF["hasjrel"]]),
+                       "sys": NS(version_info=tuple(IF["version_info"]), implementation=NS(name="cpython")), "collections": NS(deque=lambda x=(): list(x)),
+                       "warnings": NS(warn=lambda *a, **k: warned.append("warn")), "InspectionWarning": "InspectionWarning", "types": NS()}
+                ext = {"bytes": lambda x: list(x), "ExitingContext": lambda **k: NS(**k), "len": len}
+                m = Mini(env, {}, ext, fuel=400000)
+                res = "fell off"
+                try:
+                    for st in fn.body:
+                        if isinstance(st, ast.Assign) and isinstance(st.value, ast.Subscript) and norm(st.value.value) in ("List", "Dict", "Tuple", "Deque", "Set", "Optional"):
+                            continue    # a local type alias (BlockStack = List[int])
+                        m.stmt(st)
+                except _Return as r:
+                    res = r.value
+                except Raised as ex:
+                    res = f"raises {ex.kind}"
+                except Unsupported as ex:
+                    ctx.R.undecided("OPC-16", f"{v} {name}: currently_exiting_context is outside the evaluator's fragment: {ex}")
+                    return
+                got = (getattr(res, "cleanup_offset", None), getattr(res, "is_async", None)) if isinstance(res, NS) else res
+                want = (site["handler"], site["is_async"])
+                if got == want:
+                    n_ok += 1
+                    ctx.R.ok("OPC-16", f"{v} {name} ({site['kind']} at {site['pos']}): handler {site['handler']}", "FACTS exit_sites_observed")
+                else:
+                    what = f"returns handler offset {got[0]} (is_async={got[1]})" if isinstance(got, tuple) else ("returns None" + (" after a warning" if warned else "") if res is None else str(res))
+                    ctx.R.fail("OPC-16", mod, fn, f"CPython {v}, with-body shape `{name}`, frame leaving the block normally ({site['kind']}, position {site['pos']} as the interpreter reported it): "
+                               f"currently_exiting_context {what}; the block that manager entered has its handler at {site['handler']} (is_async={site['is_async']}): the exiting manager is attributed to the wrong "
+                               "block or lost on this interpreter", construct=f"{v}: observed exit of shape {name} ({site['kind']} at {site['pos']})")
+    if n_all and n_ok < n_all // 2:
+        raise AnalysisError(f"OPC-16: only {n_ok} of {n_all} observed exit sites resolve; the evaluation is probably not reaching the matcher")
+    if not n_all:
+        raise AnalysisError("OPC-16: no observed exit sites in the facts")
+
+
 def opc13_exception_path_exit(ctx: Ctx) -> None:
     """OPC-13 the exception-path exit: a frame whose position is the WITH_EXCEPT_START of a with-block's handler is exiting that
     block, and the block is identified by the handler's first instruction.  FACTS (with_handler_prefix): the handler starts
